@@ -96,23 +96,6 @@ Qed.
 (* ---------------------------------------------------------------------------------------------- *)
 (* a component's transform is the OpenType one                                                     *)
 
-Definition sscale_of (c : component) : sscale :=
-  match c_scale c with
-  | None => NoScale
-  | Some (SScale s) => Uniform s
-  | Some (SXY x y) => XYScale x y
-  | Some (SMatrix a b c d) => TwoByTwo a b c d
-  end.
-
-(* the class the source documents as not implemented (TODOs): point-number arguments, and offsets
-   that are to be scaled (SCALED_COMPONENT_OFFSET without UNSCALED_COMPONENT_OFFSET, on a component
-   that has a scale) *)
-Definition scaled_offset_requested (c : component) : bool :=
-  has (c_flags c) CF_SCALED_COMPONENT_OFFSET && negb (has (c_flags c) CF_UNSCALED_COMPONENT_OFFSET) &&
-  match c_scale c with Some _ => true | None => false end.
-Definition supported (c : component) : bool :=
-  has (c_flags c) cf_args_are_xy_values && negb (scaled_offset_requested c).
-
 Definition comp_spec (c : component) (p : Q * Q) : Q * Q :=
   spec_transform (sscale_of c) (c_arg1 c) (c_arg2 c) p.
 
@@ -296,3 +279,12 @@ Qed.
 (* drawing a decoded simple glyph never fails: no unreachable!, no index panic, no fuel exhaustion *)
 Theorem visit_simple_total sg : exists cmds, visit_simple sg = Ok cmds.
 Proof. unfold visit_simple. destruct (simple_cmds_spec (contours 0 (sg_ends sg) (sg_coords sg))) as [p [H _]]. eauto. Qed.
+
+(* the transform the correspondence judge applies for supported components is the specified one *)
+Lemma spec_xform_spec c p : supported c = true -> qp_eq (x_apply (spec_xform c) p) (comp_spec c p).
+Proof.
+  intros Hs. eapply qp_eq_trans; [apply x_apply_app|].
+  unfold spec_xform, comp_spec. rewrite Hs.
+  unfold x_app, qp_eq, spec_transform. cbn [m00 m01 m10 m11 vx vy fst snd].
+  destruct (sscale_of c); cbn [fst snd]; split; rewrite !Qred_correct; ring.
+Qed.
